@@ -40,22 +40,6 @@ def acceptCmd {σ : Type} (N : Wz.Accept.Neg σ Wz.Accept.Q) (hdr : Option Str) 
   | .ok self => outItems self ++ "|" ++ outUse (use self offers)
 
 
-/-- `MultiPartParser.parse` as modelled by C01/C02/C10 (Model/Multipart.lean), on what the limited
-stream delivers; a stream that ends early raises `ClientDisconnected` instead of delivering EOF -/
-def mpOf (bnd : Bytes) (cfg : Wz.Req.BodyCfg) (w : Wz.Req.Wire) : Except String Wz.Req.FormResult :=
-  let conv (fields : List (Option Str × Str)) (files : List Wz.Multipart.FileItem) : Wz.Req.FormResult :=
-    { fields := fields, files := files.map fun f => (f.name, f.filename, f.content) }
-  if w.disc then
-    let chunks := Wz.Multipart.readChunks 65536 w.body.length [] w.body
-    match Wz.Multipart.formLoop cfg.maxFormMemorySize
-        (Wz.Multipart.mkDecoder bnd cfg.maxFormMemorySize cfg.maxFormParts) {} (chunks.map some) with
-    | .error e => .error e
-    | .ok _ => .error "ClientDisconnected"
-  else
-    match Wz.Multipart.formParse bnd cfg.maxFormMemorySize cfg.maxFormParts 65536 [] w.body with
-    | .error e => .error e
-    | .ok (fields, files) => .ok (conv fields files)
-
 def bodyAttrArg : String → Option Wz.Req.BodyAttr
   | "form" => some .form | "files" => some .files | "values" => some .values | "data" => some .data
   | "get_data" => some .getData | "json" => some .json | "get_json" => some .getJsonSilent | "stream" => some .stream
@@ -108,7 +92,7 @@ def handle : Handler
         unhex body, boolArg disc, optArg natArg maxcl with
     | some attr, some method, some ct, some cl, some te, some qs, some body, some disc, some maxcl =>
       let e : Wz.Req.Env := { contentType := ct, contentLength := cl, transferEncoding := te, queryString := qs }
-      let bx : Wz.Req.BodyExt := ⟨mpOf, fun _ => if jl == "ok" then .ok () else .error jl⟩
+      let bx : Wz.Req.BodyExt := ⟨Wz.Req.mpModel, fun _ => if jl == "ok" then .ok () else .error jl⟩
       let cfg : Wz.Req.BodyCfg := { maxContentLength := maxcl }
       let w : Wz.Req.Wire := ⟨body, disc⟩
       match attr with
